@@ -2,6 +2,7 @@ package hgen
 
 import (
 	"fmt"
+	"os"
 	"path/filepath"
 	"regexp"
 	"sort"
@@ -84,6 +85,15 @@ func tupleFields(expr string, n int, label string) string {
 	return sb.String()
 }
 
+func labelledFields(expr string, n int, label string) string {
+	var sb strings.Builder
+	sb.WriteString("\tt := " + expr + "\n")
+	for i := 1; i <= n; i++ {
+		sb.WriteString(fmt.Sprintf("\tzz.Assert(int(t.I%d) == a%d, %q)\n", i, i, fmt.Sprintf("%s: argument %d reaches position %d", label, i, i)))
+	}
+	return sb.String()
+}
+
 var arityRules = []arityRule{
 	// ---- as
 	{"as", regexp.MustCompile(`^Tuple(\d+)$`), func(n int, name string, fi funcInfo) string {
@@ -118,6 +128,30 @@ var arityRules = []arityRule{
 	{"as", regexp.MustCompile(`^HList(\d+)$`), func(n int, name string, fi funcInfo) string {
 		lit := fmt.Sprintf("%s{%s}", tupleT(n), seqN(n, func(i int) string { return fmt.Sprintf("I%d: a%d", i, i) }, ", "))
 		return av(n) + hlCheck(fmt.Sprintf("as.%s(%s)", name, lit), upto(n), "hlist.", "as."+name)
+	}},
+	{"as", regexp.MustCompile(`^Labelled(\d+)$`), func(n int, name string, fi funcInfo) string {
+		if fi.NParams != n {
+			return ""
+		}
+		nms := seqN(n, func(i int) string { return fmt.Sprintf("nm(a%d)", i) }, ", ")
+		b := av(n) + labelledFields(fmt.Sprintf("as.%s(%s)", name, nms), n, "as."+name)
+		if n >= 2 {
+			b += fmt.Sprintf("\tzz.Assert(int(t.Head()) == a1 && int(t.Last()) == a%d, %q)\n", n, "Labelled.Head/Last")
+			b += fmt.Sprintf("\t%s := t.Unapply()\n\tzz.Assert(%s, %q)\n", seqN(n, func(i int) string { return fmt.Sprintf("u%d", i) }, ", "),
+				seqN(n, func(i int) string { return fmt.Sprintf("int(u%d) == a%d", i, i) }, " && "), "Labelled.Unapply keeps order")
+			b += fmt.Sprintf("\t%s := t.Tail()\n\tzz.Assert(%s, %q)\n", seqN(n-1, func(i int) string { return fmt.Sprintf("x%d", i) }, ", "),
+				seqN(n-1, func(i int) string { return fmt.Sprintf("int(x%d) == a%d", i, i+1) }, " && "), "Labelled.Tail drops the first")
+			b += fmt.Sprintf("\t%s := t.Init()\n\tzz.Assert(%s, %q)\n", seqN(n-1, func(i int) string { return fmt.Sprintf("y%d", i) }, ", "),
+				seqN(n-1, func(i int) string { return fmt.Sprintf("int(y%d) == a%d", i, i) }, " && "), "Labelled.Init drops the last")
+		}
+		return b
+	}},
+	{"product", regexp.MustCompile(`^LabelledFromHList(\d+)$`), func(n int, name string, fi funcInfo) string {
+		lit := "hlist.Empty()"
+		for i := n; i >= 1; i-- {
+			lit = fmt.Sprintf("hlist.Concat(nm(a%d), %s)", i, lit)
+		}
+		return av(n) + labelledFields(fmt.Sprintf("product.%s(%s)", name, lit), n, "product."+name)
 	}},
 	// ---- curried
 	{"curried", regexp.MustCompile(`^Func(\d+)$`), func(n int, name string, fi funcInfo) string {
@@ -241,6 +275,66 @@ var arityRules = []arityRule{
 	{"try", regexp.MustCompile(`^CurriedPure(\d+)$`), func(n int, name string, fi funcInfo) string {
 		return av(n) + ufN("f", n) + fmt.Sprintf("\tr := try.%s(f)%s\n\tzz.Assert(r.IsSuccess() && r.Get() == f(%s), %q)\n", name, curApp(n), as(n), "try."+name)
 	}},
+	{"try", regexp.MustCompile(`^Unit(\d+)$`), func(n int, name string, fi funcInfo) string {
+		if n == 0 {
+			return ""
+		}
+		return av(n) + "\tfail := zz.Bool(\"fail\")\n\tcalls, seen := 0, 0\n" +
+			fmt.Sprintf("\tf := func(%s int) error {\n\t\tcalls++\n\t\tseen = zz.UFInt(\"f\", %s)\n\t\tif fail {\n\t\t\treturn errX\n\t\t}\n\t\treturn nil\n\t}\n", as(n), as(n)) +
+			fmt.Sprintf("\tr := try.%s(f)(%s)\n\tzz.Assert(calls == 1 && seen == zz.UFInt(\"f\", %s), %q)\n", name, as(n), as(n), "try."+name+": calls f once with the arguments in order") +
+			fmt.Sprintf("\tif fail {\n\t\tzz.Assert(r.IsFailure() && r.Failed().Get() == errX, %q)\n\t} else {\n\t\tzz.Assert(r.IsSuccess(), %q)\n\t}\n", "try."+name+": error unchanged", "try."+name+": nil error is success")
+	}},
+	{"try", regexp.MustCompile(`^CurriedUnit(\d+)$`), func(n int, name string, fi funcInfo) string {
+		return av(n) + "\tfail := zz.Bool(\"fail\")\n\tcalls, seen := 0, 0\n" +
+			fmt.Sprintf("\tf := func(%s int) error {\n\t\tcalls++\n\t\tseen = zz.UFInt(\"f\", %s)\n\t\tif fail {\n\t\t\treturn errX\n\t\t}\n\t\treturn nil\n\t}\n", as(n), as(n)) +
+			fmt.Sprintf("\tr := try.%s[%s, int](f)%s\n\tzz.Assert(calls == 1 && seen == zz.UFInt(\"f\", %s), %q)\n", name, ints(n), curApp(n), as(n), "try."+name+": calls f once with the arguments in order") +
+			fmt.Sprintf("\tif fail {\n\t\tzz.Assert(r.IsFailure() && r.Failed().Get() == errX, %q)\n\t} else {\n\t\tzz.Assert(r.IsSuccess(), %q)\n\t}\n", "try."+name+": error unchanged", "try."+name+": nil error is success")
+	}},
+	{"try", regexp.MustCompile(`^Ptr(\d+)$`), func(n int, name string, fi funcInfo) string {
+		if fi.NParams != 1 {
+			return ""
+		}
+		return av(n) + ptrFn(n) + fmt.Sprintf("\tr := try.%s(f)(%s)\n", name, as(n)) + ptrCheck(n, "try."+name)
+	}},
+	{"try", regexp.MustCompile(`^CurriedPtr(\d+)$`), func(n int, name string, fi funcInfo) string {
+		return av(n) + ptrFn(n) + fmt.Sprintf("\tr := try.%s(f)%s\n", name, curApp(n)) + ptrCheck(n, "try."+name)
+	}},
+	{"try", regexp.MustCompile(`^Compose(\d+)$`), func(n int, name string, fi funcInfo) string {
+		if fi.NParams != n {
+			return ""
+		}
+		var sb strings.Builder
+		sb.WriteString("\ta1 := zz.Int(\"a1\")\n\tvar log []int\n")
+		for i := 1; i <= n; i++ {
+			sb.WriteString(fmt.Sprintf("\tok%d := zz.Bool(\"ok%d\")\n\tf%d := func(x int) fp.Try[int] {\n\t\tlog = append(log, %d)\n\t\tif ok%d {\n\t\t\treturn fp.Success(zz.UFInt(\"f%d\", x))\n\t\t}\n\t\treturn fp.Failure[int](errs14[%d])\n\t}\n", i, i, i, i, i, i, i-1))
+		}
+		sb.WriteString(fmt.Sprintf("\tr := try.%s(%s)(a1)\n", name, seqN(n, func(i int) string { return fmt.Sprintf("f%d", i) }, ", ")))
+		sb.WriteString("\twant, failed := a1, -1\n")
+		for i := 1; i <= n; i++ {
+			sb.WriteString(fmt.Sprintf("\tif failed < 0 {\n\t\tif ok%d {\n\t\t\twant = zz.UFInt(\"f%d\", want)\n\t\t} else {\n\t\t\tfailed = %d\n\t\t}\n\t}\n", i, i, i-1))
+		}
+		sb.WriteString(fmt.Sprintf("\tif failed < 0 {\n\t\tzz.Assert(r.IsSuccess() && r.Get() == want && len(log) == %d, %q)\n\t} else {\n\t\tzz.Assert(r.IsFailure() && r.Failed().Get() == errs14[failed] && len(log) == failed+1, %q)\n\t}\n", n, "try."+name+": applies f1 first, each once", "try."+name+": stops at the first failing function with its error"))
+		sb.WriteString("\tfor i := range log {\n\t\tzz.Assert(log[i] == i+1, \"" + "try." + name + ": functions run left to right\")\n\t}\n")
+		return sb.String()
+	}},
+	{"as", regexp.MustCompile(`^Tupled(\d+)$`), func(n int, name string, fi funcInfo) string {
+		lit := fmt.Sprintf("%s{%s}", tupleT(n), seqN(n, func(i int) string { return fmt.Sprintf("I%d: a%d", i, i) }, ", "))
+		return av(n) + ufN("f", n) + fmt.Sprintf("\tzz.Assert(as.%s(as.Func%d(f))(%s) == f(%s), %q)\n", name, n, lit, as(n), "as."+name)
+	}},
+	{".", regexp.MustCompile(`^Flip(\d+)$`), func(n int, name string, fi funcInfo) string {
+		if n != 2 {
+			return ""
+		}
+		return av(2) + ufN("f", 2) + fmt.Sprintf("\tzz.Assert(fp.%s(f)(a2)(a1) == f(a1, a2), %q)\n", name, "fp."+name+": takes the second argument first")
+	}},
+}
+
+func ptrFn(n int) string {
+	return "\tmode := zz.Choice(\"mode\", 3)\n" + fmt.Sprintf("\tf := func(%s int) (*int, error) {\n\t\tswitch mode {\n\t\tcase 0:\n\t\t\treturn nil, errX\n\t\tcase 1:\n\t\t\treturn nil, nil\n\t\t}\n\t\tv := zz.UFInt(\"f\", %s)\n\t\treturn &v, nil\n\t}\n", as(n), as(n))
+}
+
+func ptrCheck(n int, label string) string {
+	return fmt.Sprintf("\tswitch mode {\n\tcase 0:\n\t\tzz.Assert(r.IsFailure() && r.Failed().Get() == errX, %q)\n\tcase 1:\n\t\tzz.Assert(r.IsFailure(), %q)\n\tdefault:\n\t\tzz.Assert(r.IsSuccess() && r.Get() == zz.UFInt(\"f\", %s), %q)\n\t}\n", label+": error unchanged", label+": nil pointer without error is a failure", as(n), label+": arguments in order, pointer dereferenced")
 }
 
 // typeclass TupleN instances: component-wise meaning at every arity
@@ -290,6 +384,13 @@ func typeclassTuple(dir string, n int) string {
 const c14Prelude = `
 var errX = errors.New("x")
 
+var errs14 = []error{errors.New("e1"), errors.New("e2"), errors.New("e3"), errors.New("e4"), errors.New("e5"), errors.New("e6")}
+
+// a fp.Named value that is distinguishable per position
+type nm int
+
+func (nm) Name() string { return "n" }
+
 type cheap struct{}
 
 func (cheap) Eqv(a, b int) bool { return a == b }
@@ -317,7 +418,8 @@ func tagClone(i int) fp.Clone[int] {
 func genArity(tier, repo string) ([]File, error) {
 	type entry struct{ name, body string }
 	var hs []entry
-	var unc []string
+	var unc, elsewhere []string
+	mc := map[string]map[string]bool{}
 	dirs := map[string]map[string]funcInfo{}
 	for _, r := range arityRules {
 		if _, ok := dirs[r.dir]; !ok {
@@ -364,7 +466,49 @@ func genArity(tier, repo string) ([]File, error) {
 				hs = append(hs, entry{pk + "_" + n, b})
 			}
 			if !matched {
-				unc = append(unc, dir+"."+n)
+				if mc[dir] == nil {
+					mc[dir] = monadCovered(repo, dir)
+				}
+				if mc[dir][n] {
+					elsewhere = append(elsewhere, dir+"."+n+" (C01/C02: generated monad family)")
+				} else {
+					unc = append(unc, dir+"."+n)
+				}
+			}
+		}
+	}
+	// methods of fp.FuncN (ApplyFirstK, ApplyLastK, Widen), found in the source of the root package
+	{
+		srcs, _ := filepath.Glob(filepath.Join(repo, "*.go"))
+		re := regexp.MustCompile(`(?m)^func \(r Func(\d+)\[[^\]]*\]\) (ApplyFirst|ApplyLast|Widen)(\d*)\(`)
+		seen := map[string]bool{}
+		for _, f := range srcs {
+			if strings.HasSuffix(f, "_test.go") {
+				continue
+			}
+			b, err := os.ReadFile(f)
+			if err != nil {
+				continue
+			}
+			for _, m := range re.FindAllStringSubmatch(string(b), -1) {
+				n, _ := strconv.Atoi(m[1])
+				key := "Func" + m[1] + "_" + m[2] + m[3]
+				if seen[key] || n < 2 {
+					continue
+				}
+				seen[key] = true
+				recv := fmt.Sprintf("fp.Func%d[%s, int](f)", n, ints(n))
+				var body string
+				switch m[2] {
+				case "ApplyFirst":
+					body = fmt.Sprintf("\tzz.Assert(%s.%s%s(%s)(a%d) == f(%s), %q)\n", recv, m[2], m[3], as(n-1), n, as(n), "Func"+m[1]+"."+m[2]+m[3]+": fixes the first arguments in order")
+				case "ApplyLast":
+					rest := seqN(n-1, func(i int) string { return fmt.Sprintf("a%d", i+1) }, ", ")
+					body = fmt.Sprintf("\tzz.Assert(%s.%s%s(%s)(a1) == f(%s), %q)\n", recv, m[2], m[3], rest, as(n), "Func"+m[1]+"."+m[2]+m[3]+": fixes the last arguments in order")
+				case "Widen":
+					body = fmt.Sprintf("\tzz.Assert(%s.Widen()(%s) == f(%s), %q)\n", recv, as(n), as(n), "Func"+m[1]+".Widen")
+				}
+				hs = append(hs, entry{"fp_" + key, av(n) + ufN("f", n) + body})
 			}
 		}
 	}
@@ -399,6 +543,8 @@ func genArity(tier, repo string) ([]File, error) {
 	sort.Slice(hs, func(i, j int) bool { return hs[i].name < hs[j].name })
 	sort.Strings(unc)
 	Uncovered["C14"] = unc
+	sort.Strings(elsewhere)
+	Elsewhere["C14"] = elsewhere
 	var sb strings.Builder
 	sb.WriteString(`// generated by hgen (arity families) from the exported identifiers of the current tree
 package c14
